@@ -48,6 +48,19 @@ class VariableCacheProvider:
     def __init__(self):
         """Create new cache."""
         self.__cache = {}
+        self.__keep_alive = []
+
+    def keep_alive(self, value):
+        """
+        Keep a processed value alive for as long as this cache is used.
+
+        The cache is keyed by the identity of the values. The result of a watch is often a temporary object, if it is
+        freed python can give the same identity to the result of the next watch, which would then be reported with
+        the id (and so the value) of the earlier one.
+
+        :param value: the value that has been given to the cache
+        """
+        self.__keep_alive.append(value)
 
     def check_id(self, identity_hash_id) -> Optional[str]:
         """
@@ -128,6 +141,7 @@ class VariableSetProcessor(Collector):
         :return:
         """
         identity_hash_id = str(id(value))
+        self.__var_cache.keep_alive(value)
         check_id = self.__var_cache.check_id(identity_hash_id)
         if check_id is not None:
             # this means the watch result is already in the var_lookup
